@@ -461,3 +461,102 @@ Example filing_ex :
   = [(7%nat, [(1%nat, [710;711;712]); (2%nat, [720;721;722])]);
      (8%nat, [(1%nat, [810;811;812]); (2%nat, [820;821;822])])].
 Proof. reflexivity. Qed.
+
+(* ------------------------------------------------------------------------- *)
+(* experiment filing with algorithm declarations (type / (type,) / (type, kwargs) / (type, kwargs, name)) *)
+(* ------------------------------------------------------------------------- *)
+Close Scope Z_scope.
+
+Lemma flat_map_all_nil : forall (A B : Type) (h : A -> list B) l, (forall x, In x l -> h x = []) -> flat_map h l = [].
+Proof.
+  induction l as [|x l IH]; intros H; [reflexivity|]. simpl.
+  rewrite (H x (or_introl eq_refl)), IH; [reflexivity|]. intros y Hy. apply H. right. exact Hy.
+Qed.
+
+Lemma flat_map_single_key : forall (A B : Type) (key : A -> nat) (h : A -> list B) a l,
+  NoDup (map key l) -> In a l -> (forall x, In x l -> key x <> key a -> h x = []) -> flat_map h l = h a.
+Proof.
+  induction l as [|x l IH]; intros ND HI HE; [contradiction|].
+  simpl in ND. inversion ND as [|? ? NI ND']; subst. simpl. destruct HI as [->|HI].
+  - rewrite flat_map_all_nil; [apply app_nil_r|].
+    intros y Hy. apply HE; [right; exact Hy|]. intros E. apply NI. rewrite <- E. apply in_map. exact Hy.
+  - rewrite (HE x (or_introl eq_refl)).
+    + simpl. apply IH; [exact ND'|exact HI|]. intros y Hy. apply HE. right. exact Hy.
+    + intros E. apply NI. rewrite E. apply in_map. exact HI.
+Qed.
+
+Lemma existsb_eqb_false : forall a l, existsb (Nat.eqb a) l = false -> ~ In a l.
+Proof.
+  intros a l H C. assert (existsb (Nat.eqb a) l = true); [|congruence].
+  apply existsb_exists. exists a. split; [exact C|apply Nat.eqb_refl].
+Qed.
+
+Lemma decl_jobs_go_spec : forall decls existing probs seeds resf js,
+  decl_jobs_go existing decls probs seeds resf = Some js ->
+  js = flat_map (decl_block probs seeds resf) decls /\ NoDup (map dname decls) /\
+  forall d, In d decls -> ~ In (dname d) existing.
+Proof.
+  induction decls as [|d r IH]; intros existing probs seeds resf js H; simpl in H.
+  - injection H as <-. split; [reflexivity|]. split; [constructor|intros d []].
+  - destruct (existsb (Nat.eqb (dname d)) existing) eqn:E; [discriminate|].
+    destruct (decl_jobs_go (dname d :: existing) r probs seeds resf) as [js'|] eqn:G; [|discriminate].
+    injection H as <-. destruct (IH _ _ _ _ _ G) as (A & B & C).
+    split; [simpl; rewrite A; reflexivity|]. split.
+    + simpl. constructor; [|exact B]. intros HI. apply in_map_iff in HI. destruct HI as (d' & E' & Hd').
+      apply (C d' Hd'). left. symmetry. exact E'.
+    + intros d0 [<-|Hd0]; [apply existsb_eqb_false; exact E|].
+      intros HI. apply (C d0 Hd0). right. exact HI.
+Qed.
+
+Lemma decl_jobs_some : forall decls existing probs seeds resf,
+  NoDup (map dname decls) -> (forall d, In d decls -> ~ In (dname d) existing) ->
+  exists js, decl_jobs_go existing decls probs seeds resf = Some js.
+Proof.
+  induction decls as [|d r IH]; intros existing probs seeds resf ND NE; simpl; [eauto|].
+  simpl in ND. inversion ND as [|? ? NI ND']; subst.
+  assert (E : existsb (Nat.eqb (dname d)) existing = false).
+  { destruct (existsb (Nat.eqb (dname d)) existing) eqn:E; [|reflexivity]. exfalso.
+    apply existsb_exists in E. destruct E as (x & Hx & Ex). apply Nat.eqb_eq in Ex. subst x.
+    apply (NE d (or_introl eq_refl) Hx). }
+  rewrite E. destruct (IH (dname d :: existing) probs seeds resf ND') as [js' G].
+  - intros d0 Hd0 [C|C]; [apply NI; rewrite C; apply in_map; exact Hd0|apply (NE d0 (or_intror Hd0) C)].
+  - rewrite G. eauto.
+Qed.
+
+(* MAIN: with distinct algorithm names and distinct problem names, the entries
+   filed under [name of declaration d][p] are the replicates 0..seeds-1 of d's OWN
+   type constructed with d's OWN kwargs (the default {} when d has none) on p *)
+Theorem experiment_filing_decl : forall decls probs seeds resf js d p,
+  decl_jobs decls probs seeds resf = Some js -> NoDup probs -> In d decls -> In p probs ->
+  rlookup (dname d) p (file_all js) = map (resf (dty d) (dkw d) p) (seq 0 seeds).
+Proof.
+  intros decls probs seeds resf js d p H NP ID IP. unfold decl_jobs in H.
+  destruct (decl_jobs_go_spec _ _ _ _ _ _ H) as (-> & ND & _).
+  rewrite filing_general, filter_flat_map.
+  rewrite (flat_map_single_key _ _ dname _ d decls ND ID).
+  - unfold decl_block. rewrite filter_flat_map. rewrite (flat_map_single _ _ p probs NP IP).
+    + rewrite filter_all.
+      * rewrite map_map. reflexivity.
+      * intros x Hx. apply in_map_iff in Hx. destruct Hx as (k & <- & _).
+        unfold jmatch. simpl. rewrite !Nat.eqb_refl. reflexivity.
+    + intros q Hq. apply filter_none. intros x Hx. apply in_map_iff in Hx.
+      destruct Hx as (k & <- & _). unfold jmatch. simpl.
+      apply Nat.eqb_neq in Hq. rewrite Hq, andb_false_r. reflexivity.
+  - intros b _ Hb. apply filter_none. intros x Hx. unfold decl_block in Hx. apply in_flat_map in Hx.
+    destruct Hx as (q & _ & Hx). apply in_map_iff in Hx. destruct Hx as (k & <- & _).
+    unfold jmatch. simpl. apply Nat.eqb_neq in Hb. rewrite Hb. reflexivity.
+Qed.
+
+Theorem decl_jobs_defined : forall decls probs seeds resf,
+  NoDup (map dname decls) -> exists js, decl_jobs decls probs seeds resf = Some js.
+Proof. intros. apply decl_jobs_some; [assumption|intros d _ []]. Qed.
+
+Open Scope Z_scope.
+(* non-vacuity: (type 1, kwargs 4, name 9) BEFORE a bare type 1 and a (type 2,): the later
+   declarations get the default kwargs 0, not the 4 of the first *)
+Example filing_decl_ex :
+  option_map file_all (decl_jobs [DTup3 1 4 9; DBare 1; DTup1 2] [1]%nat 2
+                         (fun ty kw p k => Z.of_nat ty * 1000 + kw * 100 + Z.of_nat (10 * p + k)))
+  = Some [(9%nat, [(1%nat, [1410; 1411])]); (1%nat, [(1%nat, [1010; 1011])]); (2%nat, [(1%nat, [2010; 2011])])]
+  /\ decl_jobs [DBare 1; DTup2 1 4] [1]%nat 2 (fun _ _ _ _ => 0) = None.
+Proof. split; reflexivity. Qed.
